@@ -690,7 +690,7 @@ hdf_write_dim(XDR *xdrs, NC *handle, NC_dim **dim, int32 cnt)
     int32 refs[100];
     int32 count;
     const char *class          = NULL;
-    char  name[H4_MAX_NC_NAME] = "";
+    char  name[H4_MAX_NC_NAME + 1] = ""; /* names of H4_MAX_NC_NAME chars are legal: room for the NUL */
     int32 ret_value            = SUCCEED;
 
     /*
